@@ -248,7 +248,7 @@ class Gen:
         c = r.randrange(0, 22)
         ty = r.choice(PT)
         if c == 0:
-            return self.new_fn([], [], nonfunc=r.choice(["nil", "int", "ptr", "struct"]))
+            return self.new_fn([], [], nonfunc=r.choice(["nil", "int", "ptr", "struct", "nilfunc", "nilfunc1"]))
         if c == 1:   # result only error
             return self.new_fn(self.gen_params(None, 1), [u(0)])
         if c == 2:   # no results
